@@ -6,6 +6,7 @@ export GOFLAGS=-mod=mod GOPROXY=off GOSUMDB=off GOTOOLCHAIN=local
 mkdir -p build evidence replays
 (cd go && go build -tags verif -o ../build/dump ./cmd/dump && go build -tags verif -o ../build/facts ./cmd/facts \
   && go build -tags verif -o ../build/harness ./cmd/harness)
+(cd go && go build -o ../build/plainprobe ./cmd/plainprobe)
 (cd /repo && go build -o /verif/build/opgen ./cmd/opgen)
 ./build/dump lean/Spg/Generated /repo
 (cd /repo && /verif/build/facts /verif/lean/Spg/Generated /repo)
